@@ -193,6 +193,58 @@ def rule_recursion(chk, prog, tier):
     r.exhaustive = True
 
 
+def rule_stringized_literals(chk, prog, tier):
+    r = chk.rule('C19.q', 'a string literal made by the # operator has not been through the scanner: whatever stray backslashes the argument contains (`#x` of `\\q`, `\\x`, `\\8`, a lone `\\`), decoding it ends in the decoded bytes or in a diagnostic - '
+                 'never in a failed assertion', floor=8, oracle='C11 6.10.3.2p2 (the result need not be a valid literal; the compiler still must not abort)')
+    from props import c11, c14
+    sc = prog.require_func('stringconcat', 'expr.c')
+    ARGS = [('\\q', None), ('\\x', None), ('\\8', None), ('a \\ b', None), ('\\', None), ('a\\', None), ('\\n', [10]), ('\\x41', [0x41]), ('\\101', [0x41]), ('\\\\', [0x5c]), ('"\\\\q"', [0x22, 0x5c, 0x5c, 0x71, 0x22]), ('x', [0x78])]
+    for arg, want in ARGS:
+        src = '#define S(x) #x\nS(%s)\n' % arg
+        run = c11.pp_concrete(prog, src)
+        key = 'stringized:#x of %s' % arg
+        if run.outcome == 'unsupported': raise AnalysisBroken('%s: %s' % (key, run.detail))
+        if run.outcome != 'return':
+            r.instance(run.outcome == 'terminal:error' and want is None, key, 'pp.c:stringize', 'the preprocessor ends with %s %s' % (run.outcome, run.detail)); continue
+        lits = [t[1] for t in run.value if t[0] == 'TSTRINGLIT']
+        if len(lits) != 1: raise AnalysisBroken('%s: %d string literal tokens' % (key, len(lits)))
+        spelled = lits[0].encode('latin-1') if isinstance(lits[0], str) else bytes(lits[0])
+        def runner(it):
+            w = World(prog, it=it, target='x86_64-sysv')
+            tokobj = it.gobj('tok')
+            seq = [spelled]; st = {'i': 0}
+            def load():
+                i = st['i']
+                if i < len(seq):
+                    tokobj.f[('kind',)] = ev(prog, 'TSTRINGLIT'); tokobj.f[('lit',)] = Ptr(it.mkstr(list(seq[i]), 'lit%d' % i), (0,))
+                else:
+                    tokobj.f[('kind',)] = ev(prog, 'TSEMICOLON'); tokobj.f[('lit',)] = None
+                tokobj.f[('loc', 'file')] = None; tokobj.f[('loc', 'line')] = 2; tokobj.f[('loc', 'col')] = 1
+            def nxt(it2, a, e): st['i'] += 1; load(); return None
+            out = {}
+            def xre(i2, a, e):
+                o = Obj('strbuf', 'heap'); o.bytebuf = True; out['buf'] = o; return Ptr(o, (0,))
+            it.models.update(c14.array_models())
+            it.models.update({'next': nxt, 'error': lambda it2, a, e: (_ for _ in ()).throw(Terminal('error', cmodel.fmt_of(it2, a, 1))), 'xreallocarray': xre})
+            load()
+            sl = Obj('sl', 'heap')
+            it.call(sc, [Ptr(sl, ()), 0])
+            n = it.load(sl, ('size',))
+            data = it.load(sl, ('data',))
+            return [it.load(data.obj, (k,)) for k in range(n - 1)]
+        runs = explore(prog, runner, {}, max_runs=2, on_unsupported='keep')
+        if len(runs) == 1 and runs[0].outcome == 'unsupported' and 'read past end of string' in str(runs[0].detail):
+            r.instance(False, key, 'expr.c:stringconcat', 'decoding the literal %r runs past its end (the terminating null character is decoded as a character and the scan for the closing quote continues in whatever follows)' % spelled); continue
+        if len(runs) != 1 or runs[0].outcome == 'unsupported':
+            raise AnalysisBroken('%s: %s' % (key, [(x.outcome, x.detail) for x in runs][:2]))
+        run = runs[0]
+        if want is None:
+            r.instance(run.outcome == 'terminal:error', key, 'expr.c:decodechar', 'the literal %r is not valid: a diagnostic is due; cproc: %s %s' % (spelled, run.outcome, run.detail if run.outcome != 'return' else run.value))
+        else:
+            r.instance(run.outcome == 'return' and run.value == want, key, 'expr.c:decodechar', 'the literal %r denotes the bytes %s; cproc: %s %s' % (spelled, want, run.outcome, run.detail if run.outcome != 'return' else run.value))
+    r.exhaustive = False
+
+
 def rule_release(chk, prog, tier):
     r = chk.rule('C19.e', 'no variable is read after it was handed to a releasing function (free, fclose and the wrappers derived from them) until it is reassigned', floor=8)
     R = flow.ReleaseUse(prog)
@@ -752,6 +804,7 @@ def run(chk, tier):
     chk.guard('C19.c', lambda: rule_bounds(chk, prog, tier))
     chk.guard('C19.d', lambda: rule_null(chk, prog, tier, 'cproc-qbe'))
     chk.guard('C19.p', lambda: rule_recursion(chk, prog, tier))
+    chk.guard('C19.q', lambda: rule_stringized_literals(chk, prog, tier))
     chk.guard('C19.e', lambda: rule_release(chk, prog, tier))
     chk.guard('C19.f', lambda: rule_exit(chk, prog, tier))
     chk.guard('C19.g', lambda: rule_flush(chk, prog, tier))
